@@ -1,1 +1,33 @@
 """Namespace for dynamically created classes (dataclasses / attrs definitions of C17): ppv.dyn.<name>."""
+import dataclasses as _dc
+
+import attr as _attr
+
+
+@_dc.dataclass
+class DInner:
+    x: object = 0
+    y: list = _dc.field(default_factory=list)
+
+
+@_dc.dataclass(frozen=True)
+class DFrozen:
+    a: object = None
+    b: object = 'b'
+
+
+@_attr.s
+class AInner:
+    x = _attr.ib(default=0)
+    y = _attr.ib(factory=list)
+
+
+for _c in (DInner, DFrozen, AInner):
+    _c.__module__ = 'ppv.dyn'
+
+INNER = {'DInner': DInner, 'DFrozen': DFrozen, 'AInner': AInner}
+
+
+def build_inst(r, build):
+    # ['dcinst', class name, [positional field recipes]]
+    return INNER[r[1]](*[build(x) for x in r[2]])
